@@ -410,13 +410,19 @@ def gen_stateful(rng, tier):
     """'used, then changed in place' sources: the request is generated against the state the object reports
     after public in-place calls (mesh / region translate and scale incl. negative factors, field.rotate90,
     writes into array / valid)"""
-    s = gen_src(rng, exact=True, nmax=5, plain=True)
+    want_rot = rng.random() < 0.3
+    while True:
+        s = gen_src(rng, exact=True, nmax=5, plain=True, nd=rng.choice([2, 2, 3]) if want_rot else None)
+        if not want_rot or s["nvdim"] == 1:
+            break
     nd = len(s["n"])
     n = s["n"]
     ncell = math.prod(n)
     steps = []
     kinds = rng.sample(["translate", "scale", "scale", "write", "validset", "validflip", "arrayset", "rot"],
                        rng.randint(1, 3))
+    if want_rot and "rot" not in kinds:
+        kinds.append("rot")
     if "rot" in kinds and (nd < 2 or s["nvdim"] > 1):   # Field.rotate90 needs a vdim_mapping for vector fields
         kinds = [k for k in kinds if k != "rot"] or ["translate"]
     if "rot" in kinds:                      # the quarter turn last: geometry is inexact afterwards
